@@ -1,7 +1,189 @@
-import KinModel.Conv
+/-
+C17 — v2 ↔ v3 conversion preserves the API a document describes.
+Property theorems only. Model and abstraction: KinModel/Conv.lean; helper lemmas: KinModel/Lemmas/C17.lean.
+
+Full-strength statements (goal shapes), for every v2 document `d` of the convertible fragment:
+    toV3 d = .ok d3  ∧  validates3 d3  ∧  api3 d3 = api2 d  ∧  api2 (fromV3 d3) = api2 d
+    ∧ every reference of fromV3 d3 is a v2 location.
+The code deviates (DESIGN §7 #21, #26, #38, #39 and the findings F-C17-4, -8 … -11); what is proved below is
+the statement per component of the `Api` (schema, parameter, form field, response, security scheme,
+servers), each at full strength or `_partial` under the decidable exclusion that names the deviation,
+with a kernel-checked witness inside the exclusion and a non-vacuity example outside it.
+-/
+import KinModel.Lemmas.C17
 namespace KinModel.Conv
 
-theorem toV3RK_fromV3RK_v2 (k : RK) (h : k.isV2 = true) : fromV3RK (toV3RK k) = k := by
-  cases k <;> simp_all [RK.isV2, toV3RK, fromV3RK]
+/-! ## schemas -/
+
+/-- a reference-free, `x-nullable`-free, `file`-free schema means the same read as v2 or as v3 -/
+theorem abs3S_eq_abs2S_of_refFree {V : Type} (s : Sch V) (h : refFree s = true) (hw : v2Refs s = true) :
+    abs3S s = abs2S s := by
+  refine (Sch.induct (P := fun s => refFree s = true → v2Refs s = true → abs3S s = abs2S s)
+    (Q := fun ks => refFreeKids ks = true → v2RefsKids ks = true → abs3Kids ks = abs2Kids ks) ?_ ?_ ?_ ?_).1 s h hw
+  · intro k n h; simp [refFree] at h
+  · intro hd kids ih h hw
+    simp only [refFree, Bool.and_eq_true, Bool.not_eq_true', beq_eq_false_iff_ne, ne_eq] at h
+    simp only [v2Refs, Bool.and_eq_true, Bool.not_eq_true'] at hw
+    simp only [abs3S, abs2S, ih h.2 hw.2]
+    congr 1
+    simp [abs3Hd, abs2Hd, fileToBinary, h.1.1, h.1.2, hw.1]
+  · intro _ _; simp [abs3Kids, abs2Kids]
+  · intro sl c rest ihc ihr h hw
+    simp only [refFreeKids, Bool.and_eq_true] at h
+    simp only [v2RefsKids, Bool.and_eq_true] at hw
+    simp [abs3Kids, abs2Kids, ihc h.1 hw.1, ihr h.2 hw.2]
+
+/-- convertRefsInV3SchemaRef is complete on a pure additionalProperties sub-schema -/
+theorem addlToV3_preserves {V : Type} (s : Sch V) (h : addlPure s = true) (hw : v2Refs s = true) :
+    abs3S (addlToV3 s) = abs2S s := by
+  refine (Sch.induct (P := fun s => addlPure s = true → v2Refs s = true → abs3S (addlToV3 s) = abs2S s)
+    (Q := fun ks => addlPureKids ks = true → v2RefsKids ks = true → abs3Kids (addlKids ks) = abs2Kids ks)
+    ?_ ?_ ?_ ?_).1 s h hw
+  · intro k n _ hw; cases k <;> simp_all [addlToV3, abs3S, abs2S, toV3RK, absRK3, absRK2, v2Refs, RK.isV2]
+  · intro hd kids ih h hw
+    simp only [addlPure, Bool.and_eq_true, Bool.not_eq_true', beq_eq_false_iff_ne, ne_eq] at h
+    simp only [v2Refs, Bool.and_eq_true, Bool.not_eq_true'] at hw
+    simp only [addlToV3, abs3S, abs2S, ih h.2 hw.2]
+    congr 1
+    simp [abs3Hd, abs2Hd, fileToBinary, h.1.1, h.1.2, hw.1]
+  · intro _ _; simp [addlKids, abs3Kids, abs2Kids]
+  · intro sl c rest ihc ihr h hw
+    simp only [addlPureKids, Bool.and_eq_true] at h
+    simp only [v2RefsKids, Bool.and_eq_true] at hw
+    by_cases hs : sl = Slot.addl
+    · simp only [hs, if_true] at h
+      simp [addlKids, abs3Kids, abs2Kids, hs, ihc h.1 hw.1, ihr h.2 hw.2]
+    · simp only [hs, if_false] at h
+      simp [addlKids, abs3Kids, abs2Kids, hs, abs3S_eq_abs2S_of_refFree c h.1 hw.1, ihr h.2 hw.2]
+
+/-- Full statement: `∀ s, abs3S (toV3S s) = abs2S s`. It fails inside `addlImpure` (finding F-C17-8).
+    **ToV3SchemaRef preserves what a schema says**: same type/format (file = binary string), nullability,
+    discriminator, required list, every constraint keyword, the same sub-schemas in the same slots, every
+    reference rewritten to its v3 location. -/
+theorem toV3S_preserves_partial {V : Type} (s : Sch V) (h : addlImpure s = false) (hw : v2Refs s = true) :
+    abs3S (toV3S s) = abs2S s := by
+  refine (Sch.induct (P := fun s => addlImpure s = false → v2Refs s = true → abs3S (toV3S s) = abs2S s)
+    (Q := fun ks => addlImpureKids ks = false → v2RefsKids ks = true → abs3Kids (toV3Kids ks) = abs2Kids ks)
+    ?_ ?_ ?_ ?_).1 s h hw
+  · intro k n _ hw; cases k <;> simp_all [toV3S, abs3S, abs2S, toV3RK, absRK3, absRK2, v2Refs, RK.isV2]
+  · intro hd kids ih h hw
+    simp only [addlImpure] at h
+    simp only [v2Refs, Bool.and_eq_true] at hw
+    simp only [toV3S, abs3S, abs2S, ih h hw.2, abs3Hd_toV3Hd]
+  · intro _ _; simp [toV3Kids, abs3Kids, abs2Kids]
+  · intro sl c rest ihc ihr h hw
+    simp only [addlImpureKids, Bool.or_eq_false_iff] at h
+    simp only [v2RefsKids, Bool.and_eq_true] at hw
+    by_cases hs : sl = Slot.addl
+    · simp only [hs, if_true, Bool.not_eq_false'] at h
+      simp [toV3Kids, abs3Kids, abs2Kids, hs, addlToV3_preserves c h.1 hw.1, ihr h.2 hw.2]
+    · simp only [hs, if_false] at h
+      simp [toV3Kids, abs3Kids, abs2Kids, hs, ihc h.1 hw.1, ihr h.2 hw.2]
+
+/-- witness (F-C17-8): `additionalProperties: {type: string, x-nullable: true}` — the converted schema is
+    not nullable -/
+theorem toV3S_witness_addl :
+    let s : Sch Nat := .node {} [(Slot.addl, .node { ty := some "string", xnull := true } [])]
+    addlImpure s = true ∧ abs3S (toV3S s) ≠ abs2S s := by
+  simp [addlImpure, addlImpureKids, addlPure, addlPureKids, toV3S, toV3Kids, addlToV3, addlKids, abs3S, abs3Kids,
+    abs2S, abs2Kids, abs3Hd, abs2Hd]
+
+/-- without a reference on its chain an additionalProperties sub-schema is left as it is -/
+theorem addlToV3_id {V : Type} (s : Sch V) (h : chainRef s = false) : addlToV3 s = s := by
+  refine (Sch.induct (P := fun s => chainRef s = false → addlToV3 s = s)
+    (Q := fun ks => chainRefKids ks = false → addlKids ks = ks) ?_ ?_ ?_ ?_).1 s h
+  · intro k n h; simp [chainRef] at h
+  · intro hd kids ih h
+    simp only [chainRef] at h
+    simp [addlToV3, ih h]
+  · intro _; simp [addlKids]
+  · intro sl c rest ihc ihr h
+    simp only [chainRefKids, Bool.or_eq_false_iff] at h
+    by_cases hs : sl = Slot.addl
+    · simp only [hs, if_true] at h
+      simp [addlKids, hs, ihc h.1, ihr h.2]
+    · simp [addlKids, hs, ihr h.2]
+
+/-- Full statement: `∀ s, abs2S (fromV3S (toV3S s)) = abs2S s`. It fails inside `hasDisc` (finding #21:
+    the discriminator is not copied back) and inside `addlRef` (finding #21: a reference inside
+    additionalProperties stays a v3 reference).
+    **The round trip gives back a v2 schema that says the same.** -/
+theorem roundtripS_partial {V : Type} (s : Sch V) (h1 : hasDisc s = false) (h2 : addlRef s = false)
+    (h3 : v2Refs s = true) : abs2S (fromV3S (toV3S s)) = abs2S s := by
+  refine (Sch.induct (P := fun s => hasDisc s = false → addlRef s = false → v2Refs s = true →
+      abs2S (fromV3S (toV3S s)) = abs2S s)
+    (Q := fun ks => hasDiscKids ks = false → addlRefKids ks = false → v2RefsKids ks = true →
+      abs2Kids (fromV3Kids (toV3Kids ks)) = abs2Kids ks) ?_ ?_ ?_ ?_).1 s h1 h2 h3
+  · intro k n _ _ h
+    cases k <;> simp_all [toV3S, fromV3S, abs2S, toV3RK, fromV3RK, v2Refs, RK.isV2]
+  · intro hd kids ih h1 h2 h3
+    simp only [hasDisc, Bool.or_eq_false_iff, Option.isSome_eq_false_iff, Option.isNone_iff_eq_none] at h1
+    simp only [addlRef] at h2
+    simp only [v2Refs, Bool.and_eq_true] at h3
+    simp only [toV3S, fromV3S, abs2S, ih h1.2 h2 h3.2, abs2Hd_roundtrip hd h1.1]
+  · intro _ _ _; simp [toV3Kids, fromV3Kids, abs2Kids]
+  · intro sl c rest ihc ihr h1 h2 h3
+    simp only [hasDiscKids, Bool.or_eq_false_iff] at h1
+    simp only [addlRefKids, Bool.or_eq_false_iff] at h2
+    simp only [v2RefsKids, Bool.and_eq_true] at h3
+    by_cases hs : sl = Slot.addl
+    · simp only [hs, if_true] at h2
+      simp [toV3Kids, fromV3Kids, abs2Kids, hs, addlToV3_id c h2.1, ihr h1.2 h2.2 h3.2]
+    · simp only [hs, if_false] at h1 h2
+      simp [toV3Kids, fromV3Kids, abs2Kids, hs, ihc h1.1 h2.1 h3.1, ihr h1.2 h2.2 h3.2]
+
+/-- witness (#21a): a discriminator is lost by the round trip -/
+theorem roundtripS_witness_discriminator :
+    let s : Sch Nat := .node { ty := some "object", disc := some "kind" } []
+    hasDisc s = true ∧ abs2S (fromV3S (toV3S s)) ≠ abs2S s := by
+  simp [hasDisc, toV3S, toV3Kids, fromV3S, fromV3Kids, abs2S, abs2Kids, abs2Hd, fromV3Hd, toV3Hd]
+
+/-- witness (#21b): `additionalProperties: {$ref: "#/definitions/A"}` comes back as a v3 reference -/
+theorem roundtripS_witness_addlRef :
+    let s : Sch Nat := .node { ty := some "object" } [(Slot.addl, .ref RK.def2 "A")]
+    addlRef s = true ∧ abs2S (fromV3S (toV3S s)) ≠ abs2S s ∧ refsOf (fromV3S (toV3S s)) = [RK.def3] := by
+  simp [addlRef, addlRefKids, chainRef, toV3S, toV3Kids, addlToV3, fromV3S, fromV3Kids, abs2S, abs2Kids, refsOf,
+    refsOfKids, toV3RK, absRK2]
+
+/-- non-vacuity: a nested schema with allOf, a nullable property, a reference, a pure additionalProperties
+    sub-schema satisfies every hypothesis of the two theorems above -/
+example :
+    let s : Sch Nat := .node { ty := some "object", req := ["a"], sc := [("minProperties", 1)] }
+      [(Slot.prop "a", .node { ty := some "string", xnull := true, sc := [("minLength", 2)] } []),
+       (Slot.prop "b", .ref RK.def2 "B"),
+       (Slot.allOf 0, .node { ty := some "array" } [(Slot.items, .ref RK.def2 "B")]),
+       (Slot.addl, .node { ty := some "integer", sc := [("maximum", 9)] } [])]
+    addlImpure s = false ∧ hasDisc s = false ∧ addlRef s = false ∧ v2Refs s = true := by
+  decide
+
+/-- Full statement: every reference of `fromV3S (toV3S s)` is a v2 location; fails inside `addlRef`.
+    **refs_rewritten** -/
+theorem refs_rewritten_partial {V : Type} (s : Sch V) (h2 : addlRef s = false) (h3 : v2Refs s = true) :
+    ∀ k ∈ refsOf (fromV3S (toV3S s)), k.isV2 = true := by
+  refine (Sch.induct (P := fun s => addlRef s = false → v2Refs s = true →
+      ∀ k ∈ refsOf (fromV3S (toV3S s)), k.isV2 = true)
+    (Q := fun ks => addlRefKids ks = false → v2RefsKids ks = true →
+      ∀ k ∈ refsOfKids (fromV3Kids (toV3Kids ks)), k.isV2 = true) ?_ ?_ ?_ ?_).1 s h2 h3
+  · intro k n _ h
+    cases k <;> simp_all [toV3S, fromV3S, refsOf, toV3RK, fromV3RK, v2Refs, RK.isV2]
+  · intro hd kids ih h2 h3
+    simp only [addlRef] at h2
+    simp only [v2Refs, Bool.and_eq_true] at h3
+    simpa [toV3S, fromV3S, refsOf] using ih h2 h3.2
+  · intro _ _; simp [toV3Kids, fromV3Kids, refsOfKids]
+  · intro sl c rest ihc ihr h2 h3
+    simp only [addlRefKids, Bool.or_eq_false_iff] at h2
+    simp only [v2RefsKids, Bool.and_eq_true] at h3
+    by_cases hs : sl = Slot.addl
+    · simp only [hs, if_true] at h2
+      simp only [toV3Kids, fromV3Kids, hs, if_true, addlToV3_id c h2.1, refsOfKids, List.mem_append]
+      rintro k (hk | hk)
+      · exact refsOf_v2 c h3.1 k hk
+      · exact ihr h2.2 h3.2 k hk
+    · simp only [hs, if_false] at h2
+      simp only [toV3Kids, fromV3Kids, hs, if_false, refsOfKids, List.mem_append]
+      rintro k (hk | hk)
+      · exact ihc h2.1 h3.1 k hk
+      · exact ihr h2.2 h3.2 k hk
 
 end KinModel.Conv
